@@ -132,7 +132,7 @@ impl Property for C07 {
     }
     fn cases(&self, tier: Tier) -> u32 {
         match tier {
-            Tier::Quick => 15_000,
+            Tier::Quick => 37_500,
             Tier::Thorough => 500_000,
         }
     }
